@@ -6,6 +6,7 @@ import (
 	"go/constant"
 	"go/token"
 	"go/types"
+	"regexp"
 	"strings"
 
 	"golang.org/x/tools/go/ssa"
@@ -34,6 +35,7 @@ func init() {
 	}
 	extras["C05"] = func(c *Ctx) {
 		c.Borrow("C18", "C18.W5", "C05.N6", "the command-line front end hands the library the data file's bytes as read (no re-encoding, line splitting or trimming that depends on how the document is laid out)", 1, nil)
+		c05MessageValues(c)
 		c.Borrow("C02", "C02.P5", "C05.N7", "values are compared and counted as sets: only uniqueValues reads them as an array (an array keeps the document's value order and duplicates, which differ between serialisations)", 1, func(o Obligation) bool {
 			return o.Construct == "array-consumers"
 		})
@@ -42,6 +44,7 @@ func init() {
 		c.Borrow("C10", "C10.G6", "C06.D5", "no package-level variable holds a mutable object of a dependency (a shared buffer or cache makes the output depend on what other calls are doing)", 1, nil)
 		c.Borrow("C18", "C18.W1", "C06.D6", "the command-line front end truncates the output file it writes (a re-run over a longer earlier report must yield the same bytes as a first run)", 1, nil)
 	}
+	extras["C07"] = func(c *Ctx) { c12DegenerateProfiles(c, "", "C07.H11") }
 	extras["C08"] = c08CompileErrors
 	extras["C18"] = func(c *Ctx) {
 		c18LibraryIsSilent(c)
@@ -52,6 +55,7 @@ func init() {
 	extras["C12"] = func(c *Ctx) {
 		discardedErrorFallback(c, "C12.J10")
 		scalarTextGuard(c, "C12.J11")
+		c12DegenerateProfiles(c, "C12.J12", "C12.J13")
 	}
 	extras["C15"] = func(c *Ctx) { scalarTextGuard(c, "C15.O9") }
 	extras["C17"] = func(c *Ctx) {
@@ -783,3 +787,231 @@ func c18ArgumentCounts(c *Ctx) {
 		r.Unknown("C18.W9", "count-checks", "", "no comparison of the number of arguments was found in the commands")
 	}
 }
+
+
+// c12DegenerateProfiles (J12, J13): "a non-empty message and a non-empty trace" must also hold for the profiles at the
+// edge of the language.  J12: the text handed to the message parser is known not to be empty — a non-empty constant, or
+// the YAML value on a path whose condition excludes the empty text (`message: ""` gets the default like a missing
+// message does).  J13: the parser builds an and / or rule only from a list that is known to have an element (an `or` of
+// nothing fails for every node without a single failed component to put into the trace, and so does `not: {and: []}`):
+// the constructor call is reached only under a test of the list's size against zero.
+func c12DegenerateProfiles(c *Ctx, ridMsg, ridConn string) {
+	r, p := c.R, c.P
+	if ridMsg != "" {
+		r.Rule(ridMsg, "the message text handed to the message parser is never empty", 1)
+	}
+	r.Rule(ridConn, "and / or rules are only built from lists that have at least one element", 2)
+	pk := p.Pkg("internal/parser/profile")
+	if pk == nil {
+		r.Unknown(ridConn, "package", "", "internal/parser/profile not found")
+		return
+	}
+	isEmptyTest := func(x, v *Sym) bool {
+		if x == nil || x.K != symBin || x.Op != token.EQL {
+			return false
+		}
+		for _, pair := range [][2]*Sym{{x.X, x.Y}, {x.Y, x.X}} {
+			if cs, ok := pair[1].ConstString(); ok && cs == "" && pair[0].String() == v.String() {
+				return true
+			}
+			if pair[0].K == symLen && pair[0].X != nil && pair[0].X.String() == v.String() {
+				if n, ok := pair[1].ConstInt(); ok && n == 0 {
+					return true
+				}
+			}
+		}
+		return false
+	}
+	var hasDisjunct func(x, v *Sym) bool
+	hasDisjunct = func(x, v *Sym) bool {
+		if isEmptyTest(x, v) {
+			return true
+		}
+		return x != nil && x.K == symBin && x.Op == token.LOR && (hasDisjunct(x.X, v) || hasDisjunct(x.Y, v))
+	}
+	var impliesNonEmpty func(cond, v *Sym) bool
+	impliesNonEmpty = func(cond, v *Sym) bool {
+		if cond == nil {
+			return false
+		}
+		switch cond.K {
+		case symNot:
+			return hasDisjunct(cond.X, v)
+		case symBin:
+			if cond.Op == token.LAND {
+				return impliesNonEmpty(cond.X, v) || impliesNonEmpty(cond.Y, v)
+			}
+			if cond.Op == token.NEQ {
+				return isEmptyTest(&Sym{K: symBin, Op: token.EQL, X: cond.X, Y: cond.Y}, v)
+			}
+		}
+		return false
+	}
+	var nonEmpty func(v *Sym) (bool, string)
+	nonEmpty = func(v *Sym) (bool, string) {
+		if cs, ok := v.ConstString(); ok {
+			return cs != "", "the constant empty text"
+		}
+		if v.K == symChoice && len(v.AltConds) == len(v.Parts) {
+			for i, alt := range v.Parts {
+				if ok, _ := nonEmpty(alt); ok {
+					continue
+				}
+				if impliesNonEmpty(v.AltConds[i], alt) {
+					continue
+				}
+				return false, "the text " + shortFormat(alt.String()) + ", used when " + shortFormat(v.Alts[i]) + ", which does not exclude the empty text"
+			}
+			return true, ""
+		}
+		return false, "the text " + shortFormat(v.String()) + ", which may be empty"
+	}
+	// the message parser: string -> Message
+	var msgParser *types.Func
+	for _, n := range pk.Types.Scope().Names() {
+		if fn, ok := pk.Types.Scope().Lookup(n).(*types.Func); ok {
+			sig := fn.Type().(*types.Signature)
+			if sig.Params().Len() == 1 && sig.Results().Len() == 1 && isStringType(sig.Params().At(0).Type()) && typeName(sig.Results().At(0).Type()) == "Message" {
+				msgParser = fn
+			}
+		}
+	}
+	if msgParser == nil && ridMsg != "" {
+		r.Unknown(ridMsg, "message-parser", "", "the function that parses message expressions was not found")
+	}
+	seenMsg, seenConn := map[string]bool{}, map[string]bool{}
+	for _, root := range symRoots(pk) {
+		proto := &symWalker{Inline: samePkgInline(pk)}
+		proto.OnCall = func(w *symWalker, call *ast.CallExpr, fn types.Object, args []*Sym, result *Sym) {
+			f, _ := fn.(*types.Func)
+			if f == nil {
+				return
+			}
+			if f == msgParser && len(args) == 1 {
+				if ridMsg == "" {
+					return
+				}
+				key := relOf(pk) + "." + root.Name.Name + "/" + w.FuncName() + "#message-text"
+				if seenMsg[key] {
+					return
+				}
+				seenMsg[key] = true
+				ok, why := nonEmpty(args[0])
+				r.Check(ok, ridMsg, key, p.Pos(call.Pos()), "a non-empty constant, or the YAML text under a condition that excludes the empty text", "the message parser is handed "+why+": a validation whose message is written as \"\" reports results with an empty resultMessage")
+				return
+			}
+			// constructors of the connectives: a module function returning a struct with a Body list, handed a list
+			sig, _ := f.Type().(*types.Signature)
+			if sig == nil || f.Pkg() != pk.Types || sig.Results().Len() != 1 || !hasField(sig.Results().At(0).Type(), "Body") || w.depth != 0 && w.FuncName() == f.Name() {
+				return
+			}
+			for _, a := range args {
+				if a.K != symList || len(a.Parts) != 1 || a.Parts[0].K != symRepeat {
+					continue
+				}
+				coll := a.Parts[0].X
+				if coll.K == symField && coll.Name == "Body" {
+					continue // the operands of an existing rule, mapped one to one (Negate): as many as it had
+				}
+				// the bound of the loop that filled the list: for(i < size) -> size; a ranged collection -> itself
+				var bound *Sym
+				if coll.K == symCall && coll.Fn == "for" && len(coll.Parts) == 1 && coll.Parts[0].K == symBin {
+					bound = coll.Parts[0].Y
+				}
+				key := relOf(pk) + "." + w.FuncName() + "#" + f.Name() + "-operands"
+				if seenConn[key] {
+					continue
+				}
+				seenConn[key] = true
+				guarded := false
+				for _, cd := range w.Conds() {
+					cd.Cond.Walk(func(q *Sym) {
+						if q.K != symBin {
+							return
+						}
+						for _, pair := range [][2]*Sym{{q.X, q.Y}, {q.Y, q.X}} {
+							if _, isInt := pair[1].ConstInt(); !isInt {
+								continue
+							}
+							if bound != nil && pair[0].String() == bound.String() {
+								guarded = true
+							}
+							if pair[0].K == symLen && pair[0].X != nil && (pair[0].X.String() == coll.String() || pair[0].X.String() == a.String()) {
+								guarded = true
+							}
+						}
+					})
+				}
+				r.Check(guarded, ridConn, key, p.Pos(call.Pos()), "the list of operands is tested against zero before the rule is built", "the rule is built from "+shortFormat(a.String())+" without any test that the list has an element: an empty `or` (or a negated empty `and`) fails for every target node with an empty trace, and an `and` of nothing has no failure branch at all, so no rule is emitted for its level and the policy does not compile (`var violation is unsafe`)")
+			}
+		}
+		p.SymWalk(pk, root, proto, nil)
+	}
+	if len(seenMsg) == 0 && msgParser != nil && ridMsg != "" {
+		r.Unknown(ridMsg, "message-text", "", "no call of the message parser was evaluated")
+	}
+	if len(seenConn) == 0 {
+		r.Unknown(ridConn, "connectives", "", "no construction of an and / or rule from a list was evaluated")
+	}
+}
+
+
+// c05MessageValues (N8): the result message is part of what must not depend on the serialisation.  A {{prefix.property}}
+// placeholder prints the property's value; the flattened document holds the values of a multi-valued property in the
+// order the document listed them and spells "no values" either as an absent key or as an empty array, so a value that is
+// printed exactly as object.get returns it differs between serialisations of one graph.  The rule looks at the line the
+// message formatter emits for each variable (E-sym): what is bound must be object.get(...) passed through something that
+// normalises it (a sort / set conversion or a preamble helper), not the bare call.
+func c05MessageValues(c *Ctx) {
+	r, p := c.R, c.P
+	r.Rule("C05.N8", "the value a message placeholder prints does not depend on the order or the spelling of the property's values", 1)
+	gen := p.Pkg("internal/generator")
+	if gen == nil {
+		r.Unknown("C05.N8", "generator", "", "package internal/generator not found")
+		return
+	}
+	inl := samePkgInline(gen)
+	inline := func(fn *types.Func) bool {
+		sig, ok := fn.Type().(*types.Signature)
+		return ok && inl(fn) && !returnsText(sig)
+	}
+	n := 0
+	for _, f := range gen.Syntax {
+		for _, d := range f.Decls {
+			fd, ok := d.(*ast.FuncDecl)
+			if !ok || fd.Body == nil {
+				continue
+			}
+			seen := map[string]bool{}
+			proto := &symWalker{Inline: inline}
+			proto.OnReturn = func(w *symWalker, ret *ast.ReturnStmt, results []*Sym) {
+				if w.depth != 0 {
+					return
+				}
+				for _, res := range results {
+					res.Walk(func(q *Sym) {
+						if q.K != symConcat {
+							return
+						}
+						tpl := holeText.ReplaceAllString(q.Template(), "x")
+						i := strings.Index(tpl, ":= object.get(")
+						if i < 0 || !strings.Contains(tpl, "\"null\")") || seen[tpl] {
+							return
+						}
+						seen[tpl] = true
+						n++
+						rhs := strings.TrimSpace(tpl[i+2:])
+						bare := strings.HasPrefix(rhs, "object.get(") && strings.HasSuffix(rhs, ")") && strings.Count(rhs, "(") == 1
+						r.Check(!bare, "C05.N8", relOf(gen)+"."+fd.Name.Name+"#message-variable-as-read", p.Pos(fd.Pos()), "the value is normalised before it is printed", "the variable a placeholder prints is bound to the bare `"+shortFormat(rhs)+"`: a multi-valued property is printed in the order the document lists its values, and no values is `null` or `[]` depending on how the document spells it, so two serialisations of one graph get different result messages")
+					})
+				}
+			}
+			p.SymWalk(gen, fd, proto, nil)
+		}
+	}
+	if n == 0 {
+		r.Unknown("C05.N8", "message-variables", "", "no line binding a message variable with object.get was found in the generator")
+	}
+}
+
+var holeText = regexp.MustCompile(`‹[^›]*›`)
